@@ -1,6 +1,6 @@
 #!/bin/bash
 # usage: bin/try_seed.sh <Cxx> <patch.diff> [extra args to bin/check]  -- apply, run quick check, undo
-pid=$1; patch=$2; shift 2
+pid=$1; patch=$(realpath "$2"); shift 2
 cd /verif
 git -C /repo apply "$patch" || { echo "patch does not apply"; exit 9; }
 bin/check "$pid" --no-evidence "$@" 2>&1 | grep -E "VIOLATION|counterexample|tier=|HARNESS-ERROR|INCONCLUSIVE" | cut -c1-400
